@@ -28,6 +28,10 @@ Fixpoint Sparse (s : list (fate * fate)) : Prop :=
   end.
 Lemma Sparse_tl s : Sparse s -> hd (FD, FD) s = (FD, FD) -> Sparse (tl s).
 Proof. destruct s as [|ff r]; [auto|]. cbn. intros H ->. exact H. Qed.
+(* no response is corrupted (a request that was delivered is never answered by an unreadable frame) *)
+Definition NC (s : list (fate * fate)) : Prop := Forall (fun ff => ff <> (FD, FC)) s.
+Lemma NC_skipn k s : NC s -> NC (skipn k s).
+Proof. unfold NC. revert s. induction k as [|k IH]; intros s H; [exact H|]. destruct s; [constructor|]. inversion H; subst. apply IH. assumption. Qed.
 Lemma clean_eq ff : clean ff = true -> ff = (FD, FD).
 Proof. destruct ff as [[] []]; cbn; congruence. Qed.
 
@@ -229,7 +233,7 @@ Proof.
     + destruct (IH _ _ _ _ _ _ E1 Hp H) as (A & B & C). split; [exact A|]. split; [lia | exact C].
     + destruct (IH _ _ _ _ _ _ E1 Hp H) as (A & B & C). split; [exact A|]. split; [lia | exact C].
     + destruct (fmt r =? F_RTOX); [injection H as <- <-; split; [exact E1|]; split; [lia|]; right; eauto|].
-      destruct (negb ((fmt r =? F_INF) || (fmt r =? F_MORE) || (fmt r =? F_ACK))); injection H as <- <-;
+      destruct (negb ((fmt r =? F_INF) || (fmt r =? F_MORE))); injection H as <- <-;
         (split; [exact E1|]; split; [lia|]); [right; eauto | left; reflexivity].
 Qed.
 
@@ -303,7 +307,7 @@ Proof.
 Qed.
 
 Lemma req_nak_dd n p rwt deadline w : w_t w = t1 -> 0 <= p <= 3 -> hd (FD, FD) (w_script w) = (FD, FD) ->
-  0 < Z.min rwt (deadline - w_now w) -> (fmt r = F_INF \/ fmt r = F_MORE \/ fmt r = F_ACK) ->
+  0 < Z.min rwt (deadline - w_now w) -> (fmt r = F_INF \/ fmt r = F_MORE) ->
   exists w', req_nak (S n) ic tc p rwt deadline w = (Ok (PDepRes r), w') /\ w_t w' = t1 /\
              w_script w' = tl (w_script w) /\ w_now w' = w_now w.
 Proof.
@@ -315,24 +319,26 @@ Proof.
   - exfalso. apply E4. rewrite Hhd. reflexivity.
   - rewrite Hhd in E4. discriminate.
   - rewrite Hhd in E4. discriminate.
-  - replace (fmt r =? F_RTOX) with false by (unfold F_INF, F_MORE, F_ACK, F_RTOX in *; lia).
-    replace ((fmt r =? F_INF) || (fmt r =? F_MORE) || (fmt r =? F_ACK)) with true by lia. cbn [negb].
+  - replace (fmt r =? F_RTOX) with false by (unfold F_INF, F_MORE, F_RTOX in *; lia).
+    replace ((fmt r =? F_INF) || (fmt r =? F_MORE)) with true by lia. cbn [negb].
     exists w1. auto.
 Qed.
 
-(* a single fault, followed by two fault free rounds, is recovered: the call returns the response *)
+(* a single fault, followed by two fault free rounds, is recovered: the call returns the response - unless the
+   fault is the corruption of an ACK response (request_retransmission rejects a retransmitted ACK) *)
 Lemma srr_loop_sparse fuel p deadline w : w_t w = t0 \/ w_t w = awake t0 -> 0 <= p <= 3 -> Sparse (w_script w) ->
-  2 <= deadline - w_now w -> (2 <= fuel)%nat -> (fmt r = F_INF \/ fmt r = F_MORE \/ fmt r = F_ACK) ->
-  exists w', srr_loop fuel ic tc p (PDepReq d) 1 deadline w = (Ok (PDepRes r), w') /\ w_t w' = t1 /\ Sparse (w_script w').
+  2 <= deadline - w_now w -> (2 <= fuel)%nat -> ((fmt r = F_INF \/ fmt r = F_MORE) \/ NC (w_script w)) ->
+  exists w', srr_loop fuel ic tc p (PDepReq d) 1 deadline w = (Ok (PDepRes r), w') /\ w_t w' = t1 /\ Sparse (w_script w') /\
+             exists k, w_script w' = skipn k (w_script w).
 Proof.
   intros Hw0 Hp Hsp Hdl Hfuel Hfr.
   assert (Hin : InS (w_t w)) by (destruct Hw0 as [-> | ->]; [left | right; left]; reflexivity).
   destruct (w_script w) as [|ff rest] eqn:Esc.
   { destruct (srr_loop_nofault fuel p 1 deadline w Hin) as (w' & E & A & B & C); [rewrite Esc; reflexivity | lia | lia|].
-    exists w'. rewrite B, Esc. cbn. auto. }
+    exists w'. rewrite B, Esc. cbn. repeat split; auto. exists 0%nat. reflexivity. }
   cbn [Sparse] in Hsp. destruct (clean ff) eqn:Ec.
   { destruct (srr_loop_nofault fuel p 1 deadline w Hin) as (w' & E & A & B & C); [rewrite Esc; cbn; apply clean_eq, Ec | lia | lia|].
-    exists w'. rewrite B, Esc. cbn. auto. }
+    exists w'. rewrite B, Esc. cbn. repeat split; auto. exists 1%nat. reflexivity. }
   destruct rest as [|f1 [|f2 rest2]]; try contradiction. destruct Hsp as (C1 & C2 & Hsp).
   apply clean_eq in C1. apply clean_eq in C2. subst f1 f2.
   destruct fuel as [|[|f]]; try lia. cbn [srr_loop].
@@ -344,18 +350,21 @@ Proof.
             exists w', match req_atn 2 ic tc 1 deadline wa with
                        | (Ok _, w2) => srr_loop (S f) ic tc p (PDepReq d) 1 deadline w2
                        | (Err e, w2) => (Err e, w2) | (Crash c, w2) => (Crash c, w2) | (Hang, w2) => (Hang, w2) end
-                       = (Ok (PDepRes r), w') /\ w_t w' = t1 /\ Sparse (w_script w')).
+                       = (Ok (PDepRes r), w') /\ w_t w' = t1 /\ Sparse (w_script w') /\
+                       exists k, w_script w' = skipn k (ff :: (FD, FD) :: (FD, FD) :: rest2)).
   { intros wa Hina Hsa Hna.
     destruct (req_atn_dd 1 1 deadline wa Hina) as (w2 & E & A & B & C); [rewrite Hsa; reflexivity | lia|].
     rewrite E.
     assert (Hin2 : InS (w_t w2)) by (rewrite A; apply S_step_atn, Hina).
     destruct (srr_loop_nofault (S f) p 1 deadline w2 Hin2) as (w3 & E3 & A3 & B3 & C3); [rewrite B, Hsa; reflexivity | lia | lia|].
-    exists w3. rewrite E3, B3, B, Hsa. cbn. auto. }
+    exists w3. rewrite E3, B3, B, Hsa. cbn. repeat split; auto. exists 3%nat. reflexivity. }
   inversion Hso as [w2 E1 E2 E3 E4 E5|w2 E1 E2 E3 E4 E5|w2 E1 E2 E3 E4 E5|w2 E1 E2 E3 E4 E5]; subst x w2.
   - apply Hatn; [rewrite E1; exact Hin | rewrite E2, Esc; reflexivity | exact E3].
   - apply Hatn; [rewrite E1; right; right; reflexivity | rewrite E2, Esc; reflexivity | exact E3].
-  - destruct (req_nak_dd 1 p 1 deadline w1 E1 Hp) as (w2 & E & A & B & C); [rewrite E2, Esc; reflexivity | lia | exact Hfr|].
-    exists w2. rewrite E, B, E2, Esc. cbn. auto.
+  - rewrite Esc in E4. cbn in E4. subst ff.
+    destruct Hfr as [Hfr|Hnc]; [|exfalso; inversion Hnc as [|? ? Hh _]; apply Hh; reflexivity].
+    destruct (req_nak_dd 1 p 1 deadline w1 E1 Hp) as (w2 & E & A & B & C); [rewrite E2, Esc; reflexivity | lia | exact Hfr|].
+    exists w2. rewrite E, B, E2, Esc. cbn. repeat split; auto. exists 2%nat. reflexivity.
   - rewrite Esc in E4. cbn in E4. subst ff. discriminate.
 Qed.
 
@@ -384,11 +393,13 @@ Proof.
   rewrite E. replace (fmt r =? F_NAK) with false by lia. exists w'. auto.
 Qed.
 Theorem srr_sparse fuel p timeout w : w_t w = t0 \/ w_t w = awake t0 -> 0 <= p <= 3 -> Sparse (w_script w) ->
-  2 <= timeout -> (2 <= fuel)%nat -> (fmt r = F_INF \/ fmt r = F_MORE \/ fmt r = F_ACK) ->
-  exists w', srr fuel ic tc p d 1 timeout w = (Ok r, w') /\ w_t w' = t1 /\ Sparse (w_script w').
+  2 <= timeout -> (2 <= fuel)%nat -> ((fmt r = F_INF \/ fmt r = F_MORE) \/ (fmt r = F_ACK /\ NC (w_script w))) ->
+  exists w', srr fuel ic tc p d 1 timeout w = (Ok r, w') /\ w_t w' = t1 /\ Sparse (w_script w') /\
+             exists k, w_script w' = skipn k (w_script w).
 Proof.
   intros Hw0 Hp Hsp Hto Hfuel Hfr. unfold srr.
-  destruct (srr_loop_sparse fuel p (w_now w + timeout) w Hw0 Hp Hsp ltac:(lia) Hfuel Hfr) as (w' & E & A & B).
+  assert (Hfr' : (fmt r = F_INF \/ fmt r = F_MORE) \/ NC (w_script w)) by tauto.
+  destruct (srr_loop_sparse fuel p (w_now w + timeout) w Hw0 Hp Hsp ltac:(lia) Hfuel Hfr') as (w' & E & A & B & C).
   rewrite E. replace (fmt r =? F_NAK) with false by (unfold F_INF, F_MORE, F_ACK, F_NAK in *; lia). exists w'. auto.
 Qed.
 End Step.
